@@ -181,6 +181,17 @@ def harmless_mutants(src, fn):
                                 body.insert(i, first)
                                 return
             yield n.lineno, 'value of `%s = ...` through a temporary' % n.targets[0].id, rebuilt(mut)
+    for n in ast.walk(fn):
+        if isinstance(n, ast.If) and n.orelse and not (len(n.orelse) == 1 and isinstance(n.orelse[0], ast.If)):
+            ln, col = n.lineno, n.col_offset
+
+            def swap(f, ln=ln, col=col):
+                for x in ast.walk(f):
+                    if isinstance(x, ast.If) and x.lineno == ln and x.col_offset == col:
+                        x.test = ast.UnaryOp(op=ast.Not(), operand=x.test)
+                        x.body, x.orelse = x.orelse, x.body
+                        return
+            yield n.lineno, 'if/else swapped under a negated test', rebuilt(swap)
 
 
 def lane(args):
